@@ -370,6 +370,7 @@ def default_profile():
         p_long_read=0.006,
         p_interleaved_redirect=0.3,
         p_duplicate_adapter=0.03,
+        p_many_adapters=0.004,
         p_same_name=0.0,  # (C15 only) demultiplexing: two different adapters that share a name (one file)
         p_adapter_file=0.12,  # (only when adapters are named) give one group of adapters as file:adapters.fasta
         p_unknown_name=0.0,  # an adapter literally named 'unknown' (legal with --discard-untrimmed/--untrimmed-output)
@@ -402,6 +403,10 @@ def gen_case(rng, profile=None):
     if rng.random() < P["p_adapters"] or demux or pair_adapters:
         k1 = rng.choice([1, 1, 1, 2, 2, 3, 4]) if not demux else rng.randint(1, 4)
         indexed_set = (not pair_adapters) and rng.random() < 0.12
+        if named and not pair_adapters and demux != "combinatorial" and rng.random() < P["p_many_adapters"]:
+            # a barcode set: several hundred anchored adapters (an index is built; > 255 of them)
+            k1 = rng.randint(260, 330)
+            indexed_set = True
         for i in range(k1):
             nm = f"ad{i}" if named else None
             if indexed_set:
@@ -799,11 +804,49 @@ def gen_knobs(rng, case, P=None):
     }
 
 
+LONG_FORMS = {
+    "-a": "--adapter", "-g": "--front", "-b": "--anywhere", "-e": "--error-rate", "-O": "--overlap", "-n": "--times",
+    "-u": "--cut", "-q": "--quality-cutoff", "-l": "--length", "-m": "--minimum-length", "-M": "--maximum-length",
+    "-o": "--output", "-p": "--paired-output", "-x": "--prefix", "-y": "--suffix", "-r": "--rest-file",
+}
+ORDER_SENSITIVE = {"-a", "-g", "-b", "-A", "-G", "-B", "-u", "-U"}
+
+
+def _styled(case, groups):
+    """The same options spelled and ordered differently (long forms, '--opt=value', shuffled);
+    adapter and -u/-U options keep their relative order because it is meaningful."""
+    import random
+
+    style = case.get("knobs", {}).get("sched_seed", 0) % 4
+    if style == 0:
+        return [list(g) for g in groups]
+    r = random.Random(case["knobs"]["sched_seed"] >> 3)
+    out = []
+    for g in groups:
+        g = list(g)
+        if g[0] in LONG_FORMS and r.random() < 0.5:
+            g[0] = LONG_FORMS[g[0]]
+            if len(g) == 2 and r.random() < 0.5 and not g[1].startswith("-"):
+                g = [g[0] + "=" + g[1]]
+        out.append(g)
+    if style >= 2:
+        fixed = [i for i, g in enumerate(groups) if g[0] in ORDER_SENSITIVE]
+        free = [i for i, g in enumerate(groups) if g[0] not in ORDER_SENSITIVE]
+        r.shuffle(free)
+        order = sorted(fixed + free[: len(free)], key=lambda i: (fixed.index(i) if i in fixed else -1, 0)) if False else None
+        merged, fi, fr = [], iter(fixed), iter(free)
+        slots = sorted(fixed + free)
+        pick_fixed = set(r.sample(slots, len(fixed))) if fixed else set()
+        for pos in slots:
+            merged.append(next(fi) if pos in pick_fixed else next(fr))
+        out = [out[i] for i in merged]
+    return out
+
+
 def build_argv(case, cores=1, opts=None, outs=None, extra=()):
     argv = []
-    for g in (case["opts"] if opts is None else opts):
-        argv += g
-    for g in (case["outs"] if outs is None else outs):
+    groups = list(case["opts"] if opts is None else opts) + list(case["outs"] if outs is None else outs)
+    for g in _styled(case, groups):
         argv += g
     argv += list(extra)
     if cores > 1:
